@@ -84,6 +84,9 @@ def cases(group):
                     yield dict(X=X, Y=Y, mixing=mixing, k=k, reg=spec, big=group["label"].startswith("big"))
                     if group["label"].startswith("I") and spec in ("default", "linreg"):
                         yield dict(X=X, Y=Y, mixing=mixing, k=k, reg=spec, big=False, int_dtype=True)
+                    if group["label"][0] in "GI" and mixing in (0.0, 0.5) and spec in ("default", "linreg"):
+                        # integer-valued targets (counts, labels) handed over with an integer dtype
+                        yield dict(X=X, Y=Y, mixing=mixing, k=k, reg=spec, big=False, y_int=True)
                     if group["label"].startswith("G") and mixing == 0.5:
                         # every route again on a USED estimator (fitted before on other data of the same shape)
                         yield dict(X=X, Y=Y, mixing=mixing, k=k, reg=spec, big=False, prefit=True)
@@ -94,6 +97,8 @@ def check(case):
     X = np.array(case["X"], float)
     Y = np.array(case["Y"], float)
     mixing, k, spec = case["mixing"], case["k"], case["reg"]
+    if case.get("y_int"):
+        Y = np.round(Y * 2.0)
     ref = pcov.Ref(X, Y, mixing, spec)
     if ref.condX > 2e3:
         return r.skip("X ill conditioned on its non-zero spectrum")
@@ -115,7 +120,7 @@ def check(case):
     for space, solver in routes:
         if solver == "arpack" and k >= min(X.shape):
             continue
-        est, exc = pcov.fit_pcovr(X, Y, mixing, k, spec, space, solver, prefit=bool(case.get("prefit")), int_dtype=bool(case.get("int_dtype")))
+        est, exc = pcov.fit_pcovr(X, Y, mixing, k, spec, space, solver, prefit=bool(case.get("prefit")), int_dtype=bool(case.get("int_dtype")), y_int=bool(case.get("y_int")))
         r.transitions += 1
         tag = "%s/%s" % (space, solver)
         if exc is not None:
